@@ -196,6 +196,9 @@ func (e *Exec) callBuiltin(st *State, b *ssa.Builtin, args []Value, unwinding *p
 			return ret1(st, nil)
 		}
 		unsupported("clear of %T", args[0])
+	case "ssa:deferstack":
+		// defer stacks of range-over-func bodies are not modelled separately: defers run at function exit
+		return ret1(st, Ptr{})
 	case "ssa:wrapnilchk":
 		if p, ok := args[0].(Ptr); ok && p.Obj == 0 {
 			return []Outcome{{Kind: OutPanic, St: st, Pan: e.runtimeError("nil pointer dereference (wrapnilchk)")}}
@@ -246,7 +249,14 @@ func (e *Exec) feasible(st *State, c *Term) (bool, Result) {
 		return r != Unsat, r
 	}
 	tRel := time.Now()
-	asserts := e.relevant(append(append([]*Term{}, st.PC...), c))
+	var asserts []*Term
+	if e.BranchSliceHops > 0 {
+		// approximate feasibility: only the conjuncts within a few variable-sharing hops of the condition are used.
+		// unsat on a subset of the path condition is still a proof of infeasibility; sat/unknown keeps the branch.
+		asserts = append(e.sliceByVars(st.PC, c, e.BranchSliceHops), c)
+	} else {
+		asserts = e.relevant(append(append([]*Term{}, st.PC...), c))
+	}
 	if d := time.Since(tRel).Seconds(); d > 0.3 && os.Getenv("GOSYM_PROF") != "" {
 		fmt.Fprintf(os.Stderr, "%s slow relevant() %.1fs defs=%d\n", time.Now().Format("15:04:05.000"), d, len(e.Defs))
 	}
